@@ -50,13 +50,15 @@ pub struct Size {
     pub alt_case: bool,
     /// core files may carry clauses outside any rule (the implicit `default` rule)
     pub default_rule: bool,
+    /// parameterised rules of wide files may call parameterised rules defined before them
+    pub nested_calls: bool,
 }
 impl Size {
     pub fn quick() -> Size {
-        Size { doc_depth: 3, doc_width: 4, rules: 4, lines: 3, alts: 3, nest: 2, alt_case: false, default_rule: false }
+        Size { doc_depth: 3, doc_width: 4, rules: 4, lines: 3, alts: 3, nest: 2, alt_case: false, default_rule: false, nested_calls: false }
     }
     pub fn thorough() -> Size {
-        Size { doc_depth: 5, doc_width: 5, rules: 4, lines: 4, alts: 3, nest: 3, alt_case: false, default_rule: false }
+        Size { doc_depth: 5, doc_width: 5, rules: 4, lines: 4, alts: 3, nest: 3, alt_case: false, default_rule: false, nested_calls: false }
     }
 }
 
@@ -848,6 +850,18 @@ pub fn gen_wide_file(u: &mut Choices, doc: &V, sz: Size, messages: bool) -> File
             body.push(vec![Item::Clause(c)]);
         }
         g.sz = save;
+        if sz.nested_calls && i > 0 && u.chance(1, 2) {
+            // a call of an earlier parameterised rule (never a later one: no recursion), handing on
+            // the own parameters or a literal
+            let j = u.below(i);
+            let callee: &PRule = &prules[j];
+            let args: Vec<Expr> = (0..callee.params.len())
+                .map(|_| if u.chance(1, 4) { Expr::Lit(Lit::V(V::Int(1))) } else { Expr::Query { some: false, q: Query { head: Head::Var(params[u.below(arity)].clone()), parts: vec![] } } })
+                .collect();
+            let msg = if messages { Some(g.fresh("m")) } else { None };
+            let at = u.below(body.len() + 1);
+            body.insert(at, vec![Item::PCall { neg: false, name: callee.name.clone(), args, msg }]);
+        }
         prules.push(PRule { name: format!("pr{}", i), params, lets: vec![], body });
     }
     g.prules = prules.iter().map(|p| (p.name.clone(), p.params.len())).collect();
